@@ -209,3 +209,29 @@ def protocol_cases():
     out.append(('Set[Version]', t.Set[Version], [[[1, 2]], []]))
     out.append(('Dict[List[int], int]', t.Dict[t.List[int], int], [{(1, 2): 1}, {}]))
     return out
+
+
+def attribute_tagged_cases():
+    """Tagged unions whose variants carry the tag as a PLAIN class attribute (not a field): the variant never sees the tag as data."""
+    from pane.annotations import Tagged
+
+    class VA(env.PaneBase):
+        x: int
+        kind = 'a'
+
+    class VB(env.PaneBase, allow_extra=True):
+        y: str = 's'
+        kind = 'b'
+
+    out = []
+    for ext in (False, True, ('t', 'c')):
+        U = t.Annotated[t.Union[VA, VB], Tagged('kind', ext)]
+
+        def lay(tag, body, ext=ext):
+            if ext is False: return {'kind': tag, **body}
+            if ext is True: return {tag: body}
+            return {ext[0]: tag, ext[1]: body}
+        vals = [lay('a', {'x': 1}), lay('a', {'x': 'bad'}), lay('a', {}), lay('b', {}), lay('b', {'y': 't', 'more': 1}), lay('c', {'x': 1}), lay('a', {'x': 1, 'zz': 2}), {}, 5]
+        out.append((f"attribute-tagged union, layout {ext}", U, vals))
+        out.append((f"List[attribute-tagged union, layout {ext}]", t.List[U], [[v] for v in vals[:5]] + [[vals[0], vals[3]]]))
+    return out
